@@ -1,6 +1,7 @@
 import Pyunicorn.Model.Proto
 import Pyunicorn.Model.Circuit
 import Pyunicorn.Model.CircuitK
+import Pyunicorn.Model.CircuitPyRun
 /-! Line-protocol driver for C18: one request per line on stdin, one answer per line. -/
 open Pyunicorn Pyunicorn.Proto Pyunicorn.Circuit
 
@@ -129,6 +130,21 @@ def answer (toks : List String) : String :=
         let r := matOf res
         let s0 := State.initDefault pinvList n.toNat! r
         join ((run pinvList s0 ops).2.map showOpt)
+  -- the same histories on the object whose `__init__` / update methods / matrix getters are the
+  -- bodies regenerated from the current source (`Generated/StructC18.lean`)
+  | "histp" :: n :: adj :: res :: ops =>
+      match ops.mapM op? with
+      | none => "bad-request"
+      | some ops =>
+        let p0 := pyInit pinvList n.toNat! (adjOf adj) (matOf res)
+        join ((pyRun pinvList p0 ops).2.map showOpt)
+  | "histpd" :: n :: res :: ops =>
+      match ops.mapM op? with
+      | none => "bad-request"
+      | some ops =>
+        let r := matOf res
+        let p0 := pyInit pinvList n.toNat! (defaultAdj r) r
+        join ((pyRun pinvList p0 ops).2.map showOpt)
   | ["vcfb", n, is_, it, adm, r] =>
       let n := n.toNat!
       showVec n (vcfbKernel n (ratD is_) (ratD it) (matOf adm) (matOf r))
